@@ -1,5 +1,7 @@
+import DriverOps.C11
+import DriverOps.C13
 import DriverOps.Core
 open Lean
 namespace DriverOps
-def tables : List (String → Array Json → R (Option Json)) := [core]
+def tables : List (String → Array Json → R (Option Json)) := [c11, c13, core]
 end DriverOps
